@@ -7,7 +7,8 @@ from props import PROPS
 from manifest_text import TEXT, NOT_CLAIMED, HOOK_COMMITS
 
 checks = []
-for pid in sorted(PROPS):
+CLAIMED = [p for p in sorted(PROPS) if p in TEXT and os.path.exists(os.path.join(ROOT, 'coq', 'theories', 'Properties', p + '.v'))]
+for pid in CLAIMED:
     t = TEXT[pid]
     checks.append({
         "property_id": pid,
@@ -32,11 +33,11 @@ m = {
     },
     "engines": [
         {"name": "coq-model+correspondence", "path": "/verif/coq, /verif/harness, /verif/ocaml, /verif/tools",
-         "serves_properties": sorted(PROPS),
+         "serves_properties": CLAIMED,
          "kind_free_text": "machine-checked proof in Coq 8.16 about a hand-written executable Gallina model of the crate; the model is tied to /repo's working tree on every run by a correspondence check (same histories on the real crate via a Rust harness and on the extracted model, traces compared per property projection) and by regenerated Calib.v / OrderingsInst.v; the properties' monitors (Gallina, extracted) are evaluated on the implementation's traces"}
     ],
     "checks": checks,
-    "not_applicable": [{"property_id": k, "reason": v} for k, v in sorted(NOT_CLAIMED.items()) if k not in PROPS],
+    "not_applicable": [{"property_id": k, "reason": v} for k, v in sorted(NOT_CLAIMED.items()) if k not in CLAIMED],
     "notes": "see DESIGN.md; known findings in known_findings.json; seeded changes in seeded/",
 }
 json.dump(m, open(os.path.join(ROOT, "MANIFEST.json"), "w"), indent=1)
